@@ -807,3 +807,60 @@ SUBCHECKS = [
     SubCheck("pred_dtype", check_pred_dtype, _dtype_case, nt_dtype, quick=320, thorough=4000, case_timeout=30),
     SubCheck("bell_tsirelson", check_bell_tsirelson, _bell_corr_case, nt_bell_corr, quick=128, thorough=1600, case_timeout=30),
 ]
+
+
+# ------------------------------------------------------------------------------------------
+# 12. values do not depend on the validation tolerance, and not on what was asked of the object before
+#     (added after seeded changes C08-u1 - question probabilities below an explicitly given `tol` clipped to zero - and
+#     C08-u2 - nonsignaling_value leaving the object at reps = 1 - were missed: tol was only ever far below the smallest
+#     probability, and every method was called on a fresh object)
+# ------------------------------------------------------------------------------------------
+@st.composite
+def _tolhist_case(draw):
+    case = draw(_xor_case(qmax=3, cells_max=9, with_tol=False))
+    case["tol"] = None
+    case["big_tol"] = draw(st.sampled_from([1e-3, 2e-2, 5e-2]))
+    case["reps"] = draw(st.sampled_from([1, 1, 2]))
+    case["order"] = list(draw(st.permutations(["quantum", "classical", "ns"])))
+    return case
+
+
+def check_tol_and_history(case):
+    prob, pred = _pm(case)
+    reps = case["reps"] if prob.size <= 6 else 1
+    lb, ub = _interval(H.d_matrix(prob, pred))
+    w_lo, w_hi = (0.5 + lb / 2) ** reps, (0.5 + ub / 2) ** reps
+    wc1 = 0.5 + H.classical_bias(H.d_matrix(prob, pred)) / 2
+
+    def values(game, order):
+        out = {}
+        for name in order:
+            if name == "quantum":
+                out[name] = _sdp(game.quantum_value)
+            elif name == "classical":
+                out[name] = float(game.classical_value())
+            else:
+                out[name] = _sdp(game.nonsignaling_value)
+        return out
+
+    fresh = {}
+    for name in ("quantum", "classical", "ns"):
+        fresh.update(values(_make(dict(case, tol=None), reps=reps), [name]))  # one fresh object per method
+    req(w_lo - reps * TOL_EQ <= fresh["quantum"] <= w_hi + reps * TOL_EQ, f"quantum value {fresh['quantum']:.7f} outside the certified interval [{w_lo:.7f}, {w_hi:.7f}] (reps={reps})", "quantum-value")
+    if reps == 1:
+        req(abs(fresh["classical"] - wc1) <= TOL_EXACT, f"classical value {fresh['classical']!r} != brute force {wc1!r}", "classical!=bruteforce")
+    # (a) the same game built with a large validation tolerance (larger than some of its probabilities)
+    big = values(_make(dict(case, tol=case["big_tol"]), reps=reps), ["quantum", "classical"])
+    req(abs(big["classical"] - fresh["classical"]) <= TOL_EXACT, f"classical value changes from {fresh['classical']!r} to {big['classical']!r} when tol={case['big_tol']} is passed (smallest positive probability {prob[prob > 0].min():.4f})", "value-depends-on-tol")
+    req(abs(big["quantum"] - fresh["quantum"]) <= 2 * TOL_EQ, f"quantum value changes from {fresh['quantum']:.7f} to {big['quantum']:.7f} when tol={case['big_tol']} is passed", "value-depends-on-tol")
+    # (b) one object, methods in a drawn order, the first one asked again at the end
+    g = _make(dict(case, tol=None), reps=reps)
+    seq = values(g, case["order"])
+    seq_again = values(g, case["order"][:1])
+    for name, v in list(seq.items()) + [(k + " (asked again)", v) for k, v in seq_again.items()]:
+        base = fresh[name.split(" ")[0]]
+        tol = TOL_EXACT if name.startswith("classical") else 2 * TOL_EQ
+        req(abs(v - base) <= tol, f"{name} value on an object already asked for {case['order']} is {v:.7f}; a fresh object gives {base:.7f} (reps={reps})", "value-depends-on-call-history")
+
+
+SUBCHECKS.append(SubCheck("tol_and_history", check_tol_and_history, _tolhist_case, lambda c: f"reps={c['reps']},tol={c['big_tol']},first={c['order'][0]}", quick=64, thorough=1000, case_timeout=90))
